@@ -113,9 +113,8 @@ func opFn(name string, fields, state []string, props ...string) fnSpec {
 		Props: append([]string{"C05"}, props...), NoProof: fnOpNoProof[name]}
 }
 
-// printed, but no equivalence proof has been written yet (helpers are proved through their callers)
-var fnOpNoProof = map[string]bool{"abstractVerify": true, "shiftCount": true, "opcodeCat": true, "opcodeSplit": true, "opcodeNum2bin": true,
-	"opcodeBin2num": true, "opcodeInvert": true, "opcodeAnd": true, "opcodeOr": true, "opcodeXor": true, "opcodeLShift": true, "opcodeRShift": true}
+// printed, but no equivalence proof has been written yet
+var fnOpNoProof = map[string]bool{"opcodeNum2bin": true}
 
 var fnNumFields = []string{"s.maxNumLength", "s.verifyMinimalData", "s.afterGenesis"}
 
@@ -167,7 +166,10 @@ func fnRun(repo string) *fnResult {
 	sb.WriteString("(* Shallow Gallina renderings of small pure Go functions, printed by harness/gen/funcs*.go over lib/GoSem.v.\n" +
 		"   Go variables are prefixed v_; t_ names are temporaries.  Struct and pointer parameters are replaced by the fields\n" +
 		"   the body reads (a nil receiver is outside the definitions). *)\n")
-	sb.WriteString("From Coq Require Import List ZArith Bool.\nFrom Coq Require Import Strings.Byte.\nFrom GoBT Require Import lib.Bytes lib.GoSem lib.GoInterp.\nImport ListNotations.\nLocal Open Scope Z_scope.\n\n")
+	sb.WriteString("From Coq Require Import List ZArith Bool.\nFrom Coq Require Import Strings.Byte.\nFrom GoBT Require Import lib.Bytes lib.GoSem lib.GoInterp lib.GoTx.\nImport ListNotations.\nLocal Open Scope Z_scope.\n\n")
+	head := sb.String() // the records of the structs that were used (funcs_tx.go) go between the header and the functions
+	sb.Reset()
+	fnStructs, fnStructsUsed = map[string]*types.Named{}, map[string]bool{}
 	res := &fnResult{status: map[string]fnStatus{}}
 	for _, sp := range fnList {
 		st := fnStatus{ProofFile: "proofs/GenFuncs_" + sp.Coq + ".v", ExportFile: "Properties/Gen_" + sp.Coq + ".v", Properties: sp.Props, Go: sp.File}
@@ -194,7 +196,7 @@ func fnRun(repo string) *fnResult {
 		}
 		res.status[sp.Coq] = st
 	}
-	res.coq = sb.String()
+	res.coq = head + fnRecords() + sb.String()
 	fnCache[repo] = res
 	return res
 }
